@@ -269,7 +269,7 @@ def gen(rng, cfg, tier='quick', kf=False):
         n = min(n, 7)
     lim = rng.choice((3, 10, 50))
     if fn in ('correlation', 'linear_regression'):
-        lim = 3
+        lim = rng.choice((3, 3, 10, 22))      # sums of squares up to ~2^14: well inside the type, their product is not
         td = {'kind': 'fxp', 'l': 32, 'f': 16}
 
     def rv(whole=False):
